@@ -1,17 +1,24 @@
-from runner import CbmcUnit, Entry
+from runner import PathUnit, PathEntry
+
+LEVEL = "model_checking"
 
 
 def units(tier):
     q = tier == "quick"
-    steps = 3
-    uw = steps + 3
-    return [CbmcUnit("observer", "harness/C19_observer.cpp", [
-                Entry("vp_main_observer_a", unwind=5, timeout=900, desc="lifecycle A (2 observers throughout): every notify/poll pattern of length 2 (quick) / 3 (thorough); second poll false"),
-                Entry("vp_main_observer_b", unwind=5, timeout=900, desc="lifecycle B: observer created after notifications, removed mid-way; 3 symbolic notify/poll phases"),
-                Entry("vp_main_observer_c", unwind=5, timeout=900, desc="lifecycle C: observable destroyed first; later polls false, nothing dangles"),
-                Entry("vp_main_timestamp_step", unwind=3, desc="TimeStamp()/renew() take the global counter and bump it; copies/moves carry the value"),
-            ], defines=["PH=%d" % (2 if q else 3)], heap_max=64, assumptions=["counter wrap at 2^64 outside the claim", "copying Observer objects outside the claim"]),
-            CbmcUnit("timestamp_mt", "harness/C19_observer.cpp", [
-                Entry("vp_main_timestamp_threads", unwind=3, desc="2 threads x (create + renew): all four values distinct, each thread's increasing; all interleavings (SC)"),
-            ], defines=["PH=1"], threads=True, validate=False, native_defines=["VP_NATIVE_BUILD"],
-                assumptions=["sequential consistency; 2 threads"])]
+    ph = 2 if q else 3
+    hs = 4 if q else 6
+    W = 900 if q else 6000
+    P = lambda n, d: PathEntry(n, desc=d, wall=W, max_steps=(60000000 if q else 3000000000), max_paths=(400000 if q else 6000000))
+    obs = PathUnit("observer", "harness/C19_observer.cpp", [
+        P("vp_main_observer_hist", "every history of %d actions over one observable and up to three observers (create / destroy observer k, notify, poll k, destroy the observable): wasNotified() equals the reference, second poll false, nothing dangles in either destruction order (heap obligations)" % hs),
+        P("vp_main_observer_a", "lifecycle A (2 observers throughout): every symbolic notify/poll pattern of length %d; second poll false" % ph),
+        P("vp_main_observer_b", "lifecycle B: observer created after notifications, removed mid-way; 3 symbolic notify/poll phases of length %d" % ph),
+        P("vp_main_observer_c", "lifecycle C: observable destroyed first; later polls false, nothing dangles"),
+        P("vp_main_timestamp_step", "TimeStamp()/renew() take the global counter (symbolic start value) and bump it; copies/moves carry the value")],
+        defines=["PH=%d" % ph, "HSTEPS=%d" % hs, "VP_PATH"], native_defines=["VP_NATIVE_BUILD"],
+        assumptions=["counter wrap at 2^64 outside the claim", "copying Observer objects outside the claim", "histories of <= %d actions, <= 3 observers, one observable" % hs])
+    ts = PathUnit("timestamp_mt", "harness/C19_observer.cpp", [
+        P("vp_main_timestamp_threads", "2 threads x (create + renew): all four values distinct, each thread's increasing; every interleaving with <= %d preemptions at the atomic operations" % (2 if q else 4))],
+        defines=["PH=1", "VP_PATH", "PREEMPT=%d" % (2 if q else 4)], native_defines=["VP_NATIVE_BUILD"], validate=False, replay_repeat=5,
+        assumptions=["sequential consistency; 2 threads"], stubs=["threads: cooperative interleaving of whole IR instructions"])
+    return [obs, ts]
